@@ -301,12 +301,11 @@ where
                         // Feed received data chunks to deserialization thread.
                         if let Some(tx) = &tx {
                             let res = loop {
-                                let tx_permit = match tx.reserve().await {
-                                    Ok(tx_permit) => tx_permit,
-                                    _ => {
-                                        break Ok(());
-                                    }
-                                };
+                                // The deserializer may finish before the end of the message.
+                                // The item must nevertheless only be accepted once the message
+                                // has been received completely, since the sender may still
+                                // abandon it.
+                                let tx_permit = tx.reserve().await.ok();
 
                                 match self.receiver.recv_chunk().await {
                                     Ok(Some(chunk)) => {
@@ -315,7 +314,9 @@ where
                                             break Err(FeedError::MaxItemSizeExceeded);
                                         }
 
-                                        tx_permit.send(Ok(chunk));
+                                        if let Some(tx_permit) = tx_permit {
+                                            tx_permit.send(Ok(chunk));
+                                        }
                                     }
                                     Ok(None) => break Ok(()),
                                     Err(err) => break Err(FeedError::RecvChunkError(err)),
